@@ -5,6 +5,7 @@ import (
 	"encoding/hex"
 	"fmt"
 	"regexp"
+	"runtime/metrics"
 	"sort"
 	"strings"
 	"sync"
@@ -173,6 +174,14 @@ func hostMembers() starlark.StringDict {
 	}
 }
 
+var bigKeys = func() []starlark.Value {
+	var ks []starlark.Value
+	for i := 0; i < 48; i++ {
+		ks = append(ks, starlark.String(fmt.Sprintf("predeclared-key-%02d-%s", (i*29)%48, strings.Repeat("q", i%7))))
+	}
+	return ks
+}()
+
 func newEnv(h *hostState) starlark.StringDict {
 	env := sl.StdModules()
 	env["t"] = starlark.NewBuiltin("t", func(_ *starlark.Thread, _ *starlark.Builtin, args starlark.Tuple, kw []starlark.Tuple) (starlark.Value, error) {
@@ -206,8 +215,8 @@ func newEnv(h *hostState) starlark.StringDict {
 		{starlark.String("z"), starlark.MakeInt(3)}, {starlark.String("label"), starlark.String("p")},
 	})
 	big := starlark.NewDict(64)
-	for i := 0; i < 48; i++ {
-		big.SetKey(starlark.String(fmt.Sprintf("predeclared-key-%02d-%s", (i*29)%48, strings.Repeat("q", i%7))), starlark.MakeInt(i))
+	for i, k := range bigKeys {
+		big.SetKey(k, starlark.MakeInt(i))
 	}
 	env["big"] = big
 	return env
@@ -261,6 +270,55 @@ func execute(th *starlark.Thread, c *Case) Record {
 	rec.Globals = canon.Globals(g)
 	rec.Err = errorText(err)
 	return rec
+}
+
+// ---- screening of runaway programs -----------------------------------------------------------
+
+// The shared generator can produce loops that double a list or a big integer at every iteration
+// (x.extend(x) in a loop whose counter is reset): such a program exhausts memory long before the
+// step limit ends it. The reference execution of every program therefore runs under a guard: at
+// every 16th instruction start (a deterministic point) the cumulative number of bytes allocated by
+// the process is read; a program that has allocated more than heavyBytes is abandoned and excluded
+// from the batch before it is sent anywhere. Only the engine's main goroutine runs during
+// screening, so the figure is a function of the program.
+const heavyBytes = 32 << 20
+
+type abortHeavy struct{}
+
+var guard struct {
+	steps   int
+	base    uint64
+	tripped bool
+	sample  [1]metrics.Sample
+}
+
+func allocatedBytes() uint64 {
+	guard.sample[0].Name = "/gc/heap/allocs:bytes"
+	metrics.Read(guard.sample[:])
+	if guard.sample[0].Value.Kind() != metrics.KindUint64 {
+		return 0
+	}
+	return guard.sample[0].Value.Uint64()
+}
+
+func guardHook(_ *starlark.Thread, _ *starlark.Function, _ uint32, _ uint8) {
+	guard.steps++
+	if guard.steps&15 != 0 {
+		return
+	}
+	if allocatedBytes()-guard.base > heavyBytes {
+		guard.tripped = true
+		panic(abortHeavy{})
+	}
+}
+
+// executeScreened is execute(nil, c) under the guard; heavy reports that the program was abandoned.
+func executeScreened(c *Case) (rec Record, allocated uint64, heavy bool) {
+	guard.steps, guard.tripped, guard.base = 0, false, allocatedBytes()
+	starlark.VerifStepHook = guardHook
+	rec = execute(nil, c)
+	starlark.VerifStepHook = nil
+	return rec, allocatedBytes() - guard.base, guard.tripped
 }
 
 // ---- classification of records --------------------------------------------------------------
